@@ -127,6 +127,11 @@ func runC02(w *World, r *Report) {
 	r.Rule("appendcopy", "a struct parameter appended by value is not modified afterwards in the builder (the list holds the copy)", 1)
 	appendedCopyRule(w, r)
 	r.Rule("code", "constructors leave the specified type / subtype / experimenter codes", 35)
+	r.Rule("errfail", "in the codecs a failed step fails the whole: the branch for a non-nil error returns a non-nil error (no log-and-continue that leaves an element out while counts and declared lengths still include it)", 50)
+	errFailRule(w, r, "errfail", func(fi *FuncInfo) bool {
+		n := fi.Pkg.Types.Name()
+		return n == "openflow13" || n == "protocol" || n == "common"
+	})
 	r.Rule("declen", "stored length fields equal the size of what the element contains, for every constructor and builder", 13)
 	r.Rule("oxmlen", "constructors and editors of match fields leave oxm_length equal to the payload bytes", 40)
 	r.Rule("wirelen", "the declared length each encoder puts on the wire equals the bytes the element occupies at the moment of encoding", 34)
